@@ -148,7 +148,7 @@ impl C20 {
             }
         }
         for f in &all {
-            if f.1 - f.0 > min_len + 2 && !seen.contains(f) {
+            if f.1 - f.0 > min_len.saturating_add(2) && !seen.contains(f) {
                 ctx.violation("orf:frame-missed", desc(format!("{:?} (length {}) is not reported; reported {:?}", f, f.1 - f.0, got)));
                 return;
             }
@@ -294,7 +294,7 @@ impl Monitor for C20 {
     fn rule(&self) -> &'static str {
         "exhaustive part: dna::complement and rna::complement on all 256 byte values (involution, case preserved, IUPAC table, all other bytes fixed). random part: revcomp twice == identity \
          on arbitrary byte strings; ORF case = sequence over 2-4 letters of length 0..=120 (quick) / 600 (thorough) with planted start codons, nested starts and overlapping frames, 1-4 start \
-         and 1-4 stop codons drawn as disjoint random subsets of the 64 codons or the standard sets, min_len in 0..=30: every reported frame must come from the oracle list (start codon, \
+         and 1-4 stop codons drawn as disjoint random subsets of the 64 codons or the standard sets, min_len in 0..=30 or at the top of the usize range: every reported frame must come from the oracle list (start codon, \
          first in-frame stop, multiple of three, offset = start mod 3), have length >= min_len, be reported once, and every frame longer than min_len+2 must be reported; alphabet case = \
          random / singleton / full 256-symbol alphabets vs BTreeSet<u8> for len, max_symbol, insert, union, intersection, difference, is_word, and RankTransform as an order-preserving \
          bijection onto 0..|A| (get, transform, alphabet(), unknown symbol refused); GC case = gc_content / gc3_content vs counting on non-empty sequences. \
@@ -358,9 +358,11 @@ impl Monitor for C20 {
                         seq[p..p + 3].copy_from_slice(c);
                     }
                 }
-                let min_len = match rng.below(4) {
-                    0 => 0,
-                    1 => rng.range(0, 8),
+                let min_len = match rng.below(24) {
+                    0..=5 => 0,
+                    // the top of the range: nothing can be that long, and the length test must not wrap around
+                    6 => *rng.pick(&[usize::MAX, usize::MAX - 1, usize::MAX - 2, usize::MAX / 2 + 1]),
+                    7..=12 => rng.range(0, 8),
                     _ => rng.range(0, 30),
                 };
                 self.orf_case(ctx, rng, &seq, &starts, &stops, min_len);
